@@ -90,6 +90,8 @@ pub struct Monitor {
     partial_outstanding: bool,
     stale_in: VecDeque<Pk>,
     fail_epoch: u32,
+    reuse_during_release: bool,
+    session_lost_with_unacked: bool,
 }
 
 fn kind_of(pk: &Pk) -> (String, u16) {
@@ -150,10 +152,20 @@ impl Monitor {
             partial_outstanding: false,
             stale_in: VecDeque::new(),
             fail_epoch: 0,
+            reuse_during_release: false,
+            session_lost_with_unacked: false,
         }
     }
 
     fn v(&mut self, code: &str, detail: String) {
+        // Once a packet id has been handed out again while the QoS 2 release of its previous
+        // owner was still open, the client cannot tell the two flows apart any more (one
+        // bit / one slot per id). Everything that goes wrong afterwards in such a history
+        // is a consequence of that one recorded finding and carries its code.
+        if self.reuse_during_release && matches!(self.prop.as_str(), "C02" | "C07" | "C11") {
+            self.viols.push(("pkid_reused_while_release_pending".to_string(), format!("(consequence: {code}) {detail}")));
+            return;
+        }
         self.viols.push((code.to_string(), detail));
     }
 
@@ -230,6 +242,11 @@ impl Monitor {
                         // no session: everything carried over is dropped, legitimately
                         for l in self.ledger.iter_mut() {
                             if matches!(l.stage, Stage::Unacked | Stage::Released) && !l.post_fail {
+                                if l.first_sent.is_some() {
+                                    // packet ids of abandoned publishes stay "allocated" in the
+                                    // client's cursor: see retransmit_order_after_session_loss
+                                    self.session_lost_with_unacked = true;
+                                }
                                 l.stage = Stage::Abandoned;
                             }
                         }
@@ -357,6 +374,9 @@ impl Monitor {
                     if *pkid == 0 || *pkid > limit {
                         self.v("pkid_out_of_range", format!("PUBLISH on the wire with packet id {pkid}, inflight limit {limit}"));
                     }
+                    if self.completed_rels.contains(pkid) || self.ledger.iter().any(|l| l.stage == Stage::Released && l.pkid == *pkid && l.tag != *tag) {
+                        self.reuse_during_release = true;
+                    }
                     if let Some(b) = self.broker_pubs.iter().find(|b| b.pkid == *pkid && !b.acked) {
                         let d = format!(
                             "PUBLISH (payload p{tag}) written with packet id {pkid} while publish p{} with the same id is unacknowledged on this connection",
@@ -438,7 +458,11 @@ impl Monitor {
                         "retransmission order on the resumed session: p{tag} was sent before p{} which was originally sent earlier",
                         self.carry[0]
                     );
-                    self.v("retransmit_order", d);
+                    if self.session_lost_with_unacked {
+                        self.v("retransmit_order_after_session_loss", d);
+                    } else {
+                        self.v("retransmit_order", d);
+                    }
                 }
                 self.carry.remove(pos);
             }
@@ -620,6 +644,9 @@ impl Monitor {
             }
         }
         for m in msgs {
+            // a packet id handed out again while the release of its previous owner was still
+            // open makes the two QoS 2 flows indistinguishable for the client (one bit per
+            // id): what follows from that is one recorded finding, reported under its own code
             self.v("publish_lost", m);
         }
     }
@@ -748,7 +775,7 @@ impl Monitor {
             self.connect_seen_unanswered,
             (&self.outs, &self.wire_kinds, &self.inbound_q2, &self.inbound_unacked),
             (self.last_ping_ms, self.ping_outstanding_since, self.conn_started_ms, self.healthy, self.effective_limit, self.expect_unsolicited, self.partial_outstanding),
-            &self.completed_rels,
+            (&self.completed_rels, self.reuse_during_release, self.session_lost_with_unacked),
         ))
     }
 
